@@ -144,7 +144,7 @@ class PathEnum:
             p.env[(0, k)] = v
         for k, v in (fnbinds or {}).items():
             p.fn[(0, k)] = v
-        self._bind_defaults(func, fr, p, set((consts or {}).keys()) | set((fnbinds or {}).keys()))
+        # the root function's parameters are unknown: defaults are NOT assumed
         outs = self.block(func.node.body, p, fr)
         for q in outs:
             if q.exit is None:
@@ -450,7 +450,7 @@ class PathEnum:
                         v = self.const_of(ret, q, fr)
                         if v is not _UNKNOWN and isinstance(ret, ast.Name):
                             ret = ast.Constant(value=v)
-                    q.ev.append(Ev('return', s, fr, ret))
+                    q.ev.append(Ev('return', s, fr, ret, rfr))
                     q.exit = ('return', ret)
                 outs.append(q)
             return outs
